@@ -165,17 +165,36 @@ def check_seq(case):
 # ---------------------------------------------------------------------------
 # scheduled concurrency
 # ---------------------------------------------------------------------------
-def seq_consistent(programs, results, apply_op, init_state):
+def seq_consistent(programs, results, apply_op, init_state, final=None,
+                   spans=None):
     """Is there an interleaving respecting program order that explains all
-    results? programs: list of op lists; results: same shape."""
+    results - and, when given, the state ``final`` observed from one thread
+    after every program has returned (quiescence: those reads follow every
+    operation in real time)? programs: list of op lists; results: same
+    shape; final: {key: value or absent-marker} for the probed keys."""
     n = len(programs)
     idx = [0] * n
 
+    def may_go(t, idx):
+        """real-time order (linearizability): with spans[t][i] = (call,
+        return) on the scheduler's logical clock, an operation cannot take
+        effect before one that had already returned when it was called"""
+        if spans is None:
+            return True
+        start = spans[t][idx[t]][0]
+        for u in range(n):
+            if u != t and idx[u] < len(programs[u]) and \
+                    spans[u][idx[u]][1] < start:
+                return False
+        return True
+
     def rec(state, idx):
         if all(idx[t] == len(programs[t]) for t in range(n)):
-            return True
+            if final is None:
+                return True
+            return all(state.get(k) == v for k, v in final.items())
         for t in range(n):
-            if idx[t] < len(programs[t]):
+            if idx[t] < len(programs[t]) and may_go(t, idx):
                 op = programs[t][idx[t]]
                 st2, res = apply_op(state, op)
                 if res == results[t][idx[t]]:
@@ -203,11 +222,15 @@ def check_conc_cache(case):
     lock = CoopLock(sched)
     cache.lock = lock
     sessions = {}
+    tick = [0]
+    spans = [[] for _ in case["programs"]]
 
-    def job(prog):
+    def job(ti, prog):
         def run():
             out = []
             for op in prog:
+                t0 = tick[0]
+                tick[0] += 1
                 if op[0] == "set":
                     tag = op[2]
                     cache[bytearray(op[1].encode())] = sessions[tag]
@@ -217,6 +240,8 @@ def check_conc_cache(case):
                         out.append(cache[bytearray(op[1].encode())].tag)
                     except KeyError:
                         out.append(None)
+                spans[ti].append((t0, tick[0]))
+                tick[0] += 1
             return out
         return run
     programs = case["programs"]
@@ -224,7 +249,8 @@ def check_conc_cache(case):
         for op in prog:
             if op[0] == "set":
                 sessions[op[2]] = mk_session(op[2])
-    results, errors = sched.run([job(p) for p in programs], locks=[lock])
+    results, errors = sched.run([job(i, p) for i, p in enumerate(programs)],
+                                locks=[lock])
     nt = sched.switches > 0
     labels.append("switches=%d" % min(sched.switches, 5))
     if sched.in_critical_preempt:
@@ -241,11 +267,25 @@ def check_conc_cache(case):
     if any(r is None for r in res):
         raise HarnessError("thread produced no result (points=%d)" %
                            sched.points)
+    final = {}
+    for key in ("a", "b"):
+        try:
+            final[key] = cache[bytearray(key.encode())].tag
+        except KeyError:
+            final[key] = None
+    if not seq_consistent(programs, res, cache_apply, {}, None, spans):
+        return bad("cache-not-linearizable",
+                   "programs %r results %r spans %r" % (programs, res, spans),
+                   nt=nt, labels=labels)
     if not seq_consistent(programs, res, cache_apply, {}):
         return bad("cache-not-sequentially-consistent",
                    "programs %r results %r schedule %r" % (
                        programs, res, case["schedule"]), nt=nt,
                    labels=labels)
+    if not seq_consistent(programs, res, cache_apply, {}, final, spans):
+        return bad("cache-final-state-unexplained",
+                   "programs %r results %r then quiescent reads %r" % (
+                       programs, res, final), nt=nt, labels=labels)
     # final state must equal the last write per id in *some* order: check
     # each id maps to one of the values written to it
     for prog in programs:
@@ -326,12 +366,17 @@ def check_conc_db(case):
             if op[0] == "set":
                 verifier(op[2])
 
-    def job(prog):
+    tick = [0]
+    spans = [[] for _ in programs]
+
+    def job(ti, prog):
         def run():
             out = []
             for op in prog:
                 k = op[0]
                 key = op[1].encode()
+                t0 = tick[0]
+                tick[0] += 1
                 try:
                     if k == "set":
                         db[key] = verifier(op[2])
@@ -348,9 +393,12 @@ def check_conc_db(case):
                         out.append("ok")
                 except KeyError:
                     out.append("KeyError")
+                spans[ti].append((t0, tick[0]))
+                tick[0] += 1
             return out
         return run
-    results, errors = sched.run([job(p) for p in programs], locks=[lock])
+    results, errors = sched.run([job(i, p) for i, p in enumerate(programs)],
+                                locks=[lock])
     nt = sched.switches > 0
     if errors:
         if "hang" in errors:
@@ -363,6 +411,36 @@ def check_conc_db(case):
         return bad("db-not-sequentially-consistent",
                    "programs %r results %r" % (programs, res), nt=nt,
                    labels=labels)
+    if not seq_consistent(programs, res, db_apply, {}, None, spans):
+        return bad("db-not-linearizable",
+                   "programs %r results %r spans %r" % (programs, res, spans),
+                   nt=nt, labels=labels)
+    # quiescent probe: every way of reading must agree with one final state
+    final = {}
+    try:
+        keys = set(bytes(k) for k in db.keys())
+    except Exception as e:      # noqa
+        return bad("db-corrupted-by-concurrency:%s" % type(e).__name__,
+                   repr(e), nt=nt, labels=labels)
+    for key in ("a", "b"):
+        kb = key.encode()
+        try:
+            v = db[kb]
+            tag = [t for t, ver in _verifiers.items()
+                   if tuple(ver) == tuple(v)]
+            final[key] = tag[0] if tag else "garbage"
+        except KeyError:
+            final[key] = None
+        if (kb in db) != (final[key] is not None) or \
+                (kb in keys) != (final[key] is not None):
+            return bad("db-views-disagree:after-concurrency",
+                       "key %s: get %r, in %r, keys %r" % (
+                           key, final[key], kb in db, kb in keys), nt=nt,
+                       labels=labels)
+    if not seq_consistent(programs, res, db_apply, {}, final, spans):
+        return bad("db-final-state-unexplained",
+                   "programs %r results %r then quiescent reads %r" % (
+                       programs, res, final), nt=nt, labels=labels)
     return good(nt=nt, labels=labels)
 
 
@@ -545,20 +623,25 @@ def budget(tier):
 def explicit(tier, seed):
     # bounded-exhaustive schedules for fixed 2x2 programs: all placements of
     # <= 2 switches among the first 12 preemption points
-    horizon = 12 if tier == "quick" else 20
+    # (an honest run of these programs has 39 / 44 / 76 preemption points)
+    horizon = 80
+    pair_horizon = 40 if tier == "quick" else 80
     progs = {
         "cache": [[["set", "a", "v1"], ["get", "a"]],
                   [["set", "a", "v2"], ["get", "a"]]],
         "rsa": [[["op", 0, 0], ["op", 0, 1]], [["op", 1, 0], ["op", 1, 1]]],
         "db": [[["set", "a", "p1"], ["get", "a"]],
                [["del", "a"], ["in", "a"]]],
+        "db2": [[["set", "a", "p1"], ["get", "a"], ["get", "a"]],
+                [["set", "a", "p2"]]],
     }
     for kind, programs in progs.items():
+        kind = kind.rstrip("2")
         yield {"k": kind, "programs": programs, "schedule": []}
         for i in range(horizon):
             s = [0] * i + [1]
             yield {"k": kind, "programs": programs, "schedule": s}
-            for j in range(i + 1, horizon):
+            for j in range(i + 1, pair_horizon):
                 s2 = [0] * i + [1] + [0] * (j - i - 1) + [1]
                 yield {"k": kind, "programs": programs, "schedule": s2}
     yield {"k": "stress", "target": "cache", "threads": 8,
